@@ -745,3 +745,101 @@ func ControllingConds(b *ssa.BasicBlock) []CondEdge {
 	}
 	return out
 }
+
+// EffCall is a call that happens on behalf of a function: either directly in it (Outer == Inner.Instr) or inside a
+// helper of the same package that it calls (Outer is the call of the helper in the function, Chain the helpers entered).
+// Rules that reason about order, dominance or guards in the function use Outer; rules about the call itself use Inner.
+type EffCall struct {
+	Outer ssa.Instruction
+	Inner CallSite
+	Chain []*ssa.Function
+}
+
+// InnerConds: the branch conditions inside the helpers that decide whether the inner call runs (MayConds per level).
+func (e EffCall) InnerConds() []CondEdge {
+	var out []CondEdge
+	if len(e.Chain) > 0 {
+		out = append(out, MayConds(e.Inner.Instr.Block())...)
+	}
+	return out
+}
+
+// EffectiveCalls lists the calls made by fn and, transitively up to depth, by the functions of its own package that
+// it calls statically (helpers a refactoring may have extracted) and by its function literals.
+func EffectiveCalls(fn *ssa.Function, depth int) []EffCall {
+	var out []EffCall
+	pkg := FuncPkgPath(fn)
+	var walk func(f *ssa.Function, outer ssa.Instruction, chain []*ssa.Function, d int, seen map[*ssa.Function]bool)
+	walk = func(f *ssa.Function, outer ssa.Instruction, chain []*ssa.Function, d int, seen map[*ssa.Function]bool) {
+		for _, cs := range Calls(f, false) {
+			o := outer
+			if o == nil {
+				o = cs.Instr
+			}
+			out = append(out, EffCall{Outer: o, Inner: cs, Chain: chain})
+			g := cs.Common().StaticCallee()
+			if g == nil {
+				if mc, ok := cs.Common().Value.(*ssa.MakeClosure); ok {
+					g, _ = mc.Fn.(*ssa.Function)
+				}
+			}
+			if g == nil || len(g.Blocks) == 0 || d >= depth || seen[g] || FuncPkgPath(g) != pkg {
+				continue
+			}
+			seen[g] = true
+			walk(g, o, append(append([]*ssa.Function{}, chain...), g), d+1, seen)
+			delete(seen, g)
+		}
+	}
+	walk(fn, nil, nil, 0, map[*ssa.Function]bool{fn: true})
+	return out
+}
+
+// HelperClosure extends a set of functions with every function of the same packages all of whose call sites (in
+// non-test code) lie in functions already in the set: a helper extracted from an owner acts on the owner's behalf.
+func (p *Program) HelperClosure(owners map[*ssa.Function]bool) map[*ssa.Function]bool {
+	out := map[*ssa.Function]bool{}
+	pkgs := map[string]bool{}
+	for f := range owners {
+		out[f] = true
+		pkgs[FuncPkgPath(f)] = true
+	}
+	callers := map[*ssa.Function][]*ssa.Function{}
+	for _, cs := range p.AllCalls() {
+		if p.IsTestFile(cs.Pos()) {
+			continue
+		}
+		g := cs.Common().StaticCallee()
+		if g == nil {
+			if mc, ok := cs.Common().Value.(*ssa.MakeClosure); ok {
+				g, _ = mc.Fn.(*ssa.Function)
+			}
+		}
+		if g != nil && pkgs[FuncPkgPath(g)] {
+			caller := cs.Caller
+			for caller.Parent() != nil {
+				caller = caller.Parent()
+			}
+			callers[g] = append(callers[g], caller)
+		}
+	}
+	for changed := true; changed; {
+		changed = false
+		for g, cl := range callers {
+			if out[g] || len(cl) == 0 || g.Object() == nil || g.Object().Exported() {
+				continue
+			}
+			all := true
+			for _, c := range cl {
+				if !out[c] && c != g {
+					all = false
+				}
+			}
+			if all {
+				out[g] = true
+				changed = true
+			}
+		}
+	}
+	return out
+}
